@@ -1413,10 +1413,6 @@ func tokenizerSplitsOn(p *core.Program, info *types.Info, pred ast.Expr) string 
 	if body == nil || param == nil {
 		return "predicate not resolved"
 	}
-	rets := astx.Returns(body)
-	if len(rets) != 1 || len(rets[0].Results) != 1 || len(body.List) != 1 {
-		return "predicate is not a single return expression"
-	}
 	for _, tc := range []struct {
 		r    rune
 		want bool
@@ -1427,12 +1423,36 @@ func tokenizerSplitsOn(p *core.Program, info *types.Info, pred ast.Expr) string 
 			}
 			return 0, false
 		}}
-		got, err := astx.EvalBool(info, rets[0].Results[0], env, nil)
-		if err != nil {
-			return "predicate not decidable: " + err.Error()
+		// the value returned on the path(s) that are feasible for this rune
+		results := map[bool]bool{}
+		problem := ""
+		astx.ForEachExit(info, body, func(s *astx.State, kind astx.ExitKind, ret *ast.ReturnStmt) {
+			if ret == nil || len(ret.Results) != 1 {
+				problem = "predicate has an exit without a result"
+				return
+			}
+			for _, f := range s.Facts {
+				b, err := astx.EvalBool(info, f.Expr, env, nil)
+				if err != nil {
+					problem = "predicate not decidable: " + err.Error()
+					return
+				}
+				if b != f.Pol {
+					return // path not taken for this rune
+				}
+			}
+			got, err := astx.EvalBool(info, ret.Results[0], env, nil)
+			if err != nil {
+				problem = "predicate not decidable: " + err.Error()
+				return
+			}
+			results[got] = true
+		})
+		if problem != "" {
+			return problem
 		}
-		if got != tc.want {
-			return fmt.Sprintf("predicate(%q) = %v", tc.r, got)
+		if len(results) != 1 || !results[tc.want] {
+			return fmt.Sprintf("predicate(%q) is not %v", tc.r, tc.want)
 		}
 	}
 	return ""
